@@ -282,6 +282,9 @@ func (s *Store) cb(ctx context.Context, kind uint8) (injected error) {
 			a.Fired["cancel@"+KindNames[kind]]++
 			doCancel = true
 		case "stall":
+			if kind == KClose {
+				continue
+			}
 			s.used[i] = true
 			a.Fired["stall@"+KindNames[kind]]++
 			doStall = true
@@ -370,7 +373,7 @@ func (q *querier) LabelNames(...*labels.Matcher) ([]string, storage.Warnings, er
 }
 
 func (q *querier) Close() error {
-	q.s.cb(nil, KClose)
+	// the call is what the engine owes the storage; count it before any fault fires inside it
 	if q.rec != nil {
 		_, step := sched.Current()
 		q.s.mu.Lock()
@@ -378,6 +381,7 @@ func (q *querier) Close() error {
 		q.rec.CloseStep = step
 		q.s.mu.Unlock()
 	}
+	q.s.cb(nil, KClose)
 	return nil
 }
 
